@@ -85,6 +85,7 @@ def gen_plan(seed, index, tier):
         "yform": rng.choice(["nd", "nd", "list", "series"]), "gform": rng.choice(["nd", "nd", "list", "series"]),
         "scramble_index": rng.random() < 0.4,
     }
+    plan["twin_perm"] = rng.sample(range(len(rows)), len(rows)) if (index >= 50 and not kind.startswith("BGL") and rng.random() < 0.2) else None
     # history: an earlier fit of the same GridSearch object on the same X with other labels/groups
     plan["prior_rows"] = derive_rows(rng, rows) if (index >= 50 and not kind.startswith("BGL") and rng.random() < 0.25) else None
     return plan
@@ -126,6 +127,16 @@ def fit_once(plan, ctx, stall=False):
     ctx.ties.pos = 0
     ctx.clock.dl.pos = 0
     ctx.clock.force_stall = stall
+    if plan.get("twin_perm") and len(plan["twin_perm"]) == len(rows):
+        # ambient process state: another caller's independent GridSearch on a row-permuted copy of the data
+        pr = [rows[i] for i in plan["twin_perm"]]
+        twin = GridSearch(seams.ExactClassifier(col=0, log_payload=False), make_constraints(plan), constraint_weight=plan["cw"],
+                          grid_size=2, grid_limit=plan["grid_limit"])
+        with ctx.clock_installed():
+            ctx.call(twin.fit, build_X([r[0] for r in pr], "df"), np.array([r[2] for r in pr]),
+                     sensitive_features=np.array([f"g{r[1]}" for r in pr]))
+        ctx.fault("interleaved_second_instance")
+        ctx.ties.pos = 0
     if plan.get("prior_rows"):
         pr = plan["prior_rows"]
         with ctx.clock_installed():
@@ -388,6 +399,8 @@ def shrink_candidates(plan):
     rows = p["rows"]
     if p.get("prior_rows"):
         yield mod(prior_rows=None)
+    if p.get("twin_perm"):
+        yield mod(twin_perm=None)
     if p.get("clock"):
         yield mod(clock=[])
     if p.get("stall_rerun"):
@@ -396,7 +409,7 @@ def shrink_candidates(plan):
         yield mod(ties=[])
     for gsz in [s for s in (2, 3, 4, 5, 7, 10, 13, 20, 31, 45) if s < p["grid_size"]]:
         yield mod(grid_size=gsz)
-    n = 0 if p.get("prior_rows") else len(rows)
+    n = 0 if (p.get("prior_rows") or p.get("twin_perm")) else len(rows)
     for size in (n // 2, n // 4, 2, 1):
         if size < 1:
             continue
@@ -405,7 +418,7 @@ def shrink_candidates(plan):
             if len(cand) >= 4 and len({r[2] for r in cand}) >= 2 and len({r[1] for r in cand}) >= 2:
                 yield mod(rows=cand)
     grps = sorted({r[1] for r in rows})
-    if p.get("prior_rows"):
+    if p.get("prior_rows") or p.get("twin_perm"):
         return
     if len(grps) > 2:
         yield mod(rows=[(r[0], min(r[1], grps[-2]), r[2]) for r in rows])
